@@ -10,6 +10,7 @@ pub mod c07;
 pub mod c08;
 pub mod c09;
 pub mod c09_e2e;
+pub mod c10;
 pub mod c11;
 pub mod c13;
 pub mod c15;
@@ -39,6 +40,7 @@ pub fn registry() -> Vec<(&'static str, CheckFn)> {
         ("C07", c07::run as CheckFn),
         ("C08", c08::run as CheckFn),
         ("C09", c09::run as CheckFn),
+        ("C10", c10::run as CheckFn),
         ("C11", c11::run as CheckFn),
         ("C13", c13::run as CheckFn),
         ("C15", c15::run as CheckFn),
